@@ -140,9 +140,10 @@ func c14Args(h c14H, r c14Req) []byte {
 	case nfsx.ProcLink:
 		return nfsx.ArgsLink(obj, dir, name)
 	case nfsx.ProcReaddir:
-		return nfsx.ArgsReaddir(obj, uint64(r.Var%3), [8]byte{}, []uint32{4096, 0, 100}[r.Var%3])
+		// (counts that cut the listing of the export root - 11 entries - after one, a few or most entries)
+		return nfsx.ArgsReaddir(obj, uint64(r.Var%3), [8]byte{}, []uint32{4096, 0, 100, 160, 250, 400, 800}[(r.Var+r.Cut)%7])
 	case nfsx.ProcReaddirplus:
-		return nfsx.ArgsReaddirplus(obj, uint64(r.Var%3), [8]byte{}, 4096, []uint32{8192, 0, 100}[r.Var%3])
+		return nfsx.ArgsReaddirplus(obj, uint64(r.Var%3), [8]byte{}, 4096, []uint32{8192, 0, 100, 300, 450, 700, 1200}[(r.Var+r.Cut)%7])
 	case nfsx.ProcCommit:
 		return nfsx.ArgsCommit(obj, 0, 0)
 	}
@@ -203,6 +204,9 @@ func runC14(tb stat.TB, c c14Case) {
 	v.SeedDir("/d", 0755, 0, 0)
 	v.SeedFile("/d/child", 0644, 0, 0, []byte("c"))
 	v.SeedSymlink("/l", "f", 0, 0)
+	for i := 0; i < 8; i++ {
+		v.SeedFile(fmt.Sprintf("/e%d", i), 0644, 0, 0, []byte("e"))
+	}
 	opts := absnfs.ExportOptions{AttrCacheTimeout: 1, AttrCacheSize: 4, ReadOnly: c.State == "readonly"}
 	if c.State == "ratelimited" || c.State == "connlimited" {
 		opts.EnableRateLimiting = true
